@@ -16,6 +16,9 @@
 (* [host, connection, stream id, connection keyspace, session keyspace].        *)
 EXTENDS Driver, TraceLib
 
+CONSTANT Check     \* which parts of the logged post-state are compared: subset of {"host", "conn", "out", "att", "errs", "ks"}
+                   \* (all of them for validation; one left out at a time to localise a rejection)
+
 VARIABLES tid, l
 tvars == <<vars, tid, l>>
 
@@ -55,22 +58,30 @@ ConnPost(p) ==
     /\ \A i \in 1..Len(p.conns) :
          LET k == conns'[i]
              q == p.conns[i] IN
-         /\ k.h = q.h /\ k.open = q.open /\ k.inst = q.inst /\ k.ks = q.ks /\ k.sig = q.sig
+         /\ k.h = q.h /\ k.open = q.open /\ k.inst = q.inst /\ k.sig = q.sig
          /\ q.open => /\ k.reg = ToSet(q.reg)
                       /\ k.orph = ToSet(q.orph)
                       /\ k.owed = ToSet(q.owed)
                       /\ Infl(k) = q.infl
                       /\ Ids \ InUse(k) = ToSet(q.free)
 
-ReqPost(p) ==
-    \A r \in Reqs :
-        LET k == rq'[r]
-            q == p.reqs[r] IN
-        /\ k.st = q.st /\ k.out = q.out /\ k.n = q.n /\ k.att = q.att /\ k.timer = q.timer /\ k.errs = ToSet(q.errs)
-        /\ k.lc = q.lc /\ k.lid = q.lid
-        /\ k.st = "open" => k.plan = q.plan
+OutPost(p) ==  \A r \in Reqs : LET k == rq'[r]
+                                    q == p.reqs[r] IN
+                                k.st = q.st /\ k.out = q.out /\ k.n = q.n /\ k.timer = q.timer
+AttPost(p) ==  \A r \in Reqs : LET k == rq'[r]
+                                    q == p.reqs[r] IN
+                                /\ k.att = q.att /\ k.lc = q.lc /\ k.lid = q.lid
+                                /\ k.st = "open" => k.plan = q.plan
+ErrsPost(p) == \A r \in Reqs : rq'[r].errs = ToSet(p.reqs[r].errs)
+KsPost(p) ==   /\ sks' = p.sks
+               /\ Len(conns') = Len(p.conns) => \A i \in 1..Len(p.conns) : conns'[i].ks = p.conns[i].ks
 
-Post(p) == HostPost(p) /\ ConnPost(p) /\ ReqPost(p) /\ sks' = p.sks
+Post(p) == /\ "host" \in Check => HostPost(p)
+           /\ "conn" \in Check => ConnPost(p)
+           /\ "out"  \in Check => OutPost(p)
+           /\ "att"  \in Check => AttPost(p)
+           /\ "errs" \in Check => ErrsPost(p)
+           /\ "ks"   \in Check => KsPost(p)
 
 TraceInit == tid \in 1..NTraces /\ l = 1 /\ Init
 
